@@ -239,6 +239,77 @@ func c03(c *Ctx) {
 		}
 		c.AddEval(q, h.Obj(kv...), "random", false, true)
 	}
+	// filter bodies over arrays of 2..4 rows whose leaves read the ELEMENT (`@.v0`, `@.v1`) or the ROOT
+	// (`$.w0`, `$.w1`) in every mixture, nested up to four deep: the group is evaluated anew for every row
+	// (a group whose own paths all read the root may still hold a sub-group that reads the element)
+	{
+		r := c.Rng
+		var gen func(depth int, top bool) *gtree
+		gen = func(depth int, top bool) *gtree {
+			g := &gtree{leaf: -1, kw: []string{"AND", "OR", ""}[r.Intn(3)]}
+			for i, m := 0, 1+r.Intn(3); i < m; i++ {
+				switch {
+				case depth > 0 && r.Intn(5) < 2:
+					g.kids = append(g.kids, gen(depth-1, false))
+				case top:
+					g.kids = append(g.kids, &gtree{leaf: r.Intn(2)}) // a direct member of a filter reads the element
+				default:
+					g.kids = append(g.kids, &gtree{leaf: r.Intn(4)})
+				}
+			}
+			return g
+		}
+		varPath := func(i int) string {
+			if i < 2 {
+				return fmt.Sprintf("@.v%d", i)
+			}
+			return fmt.Sprintf("$.w%d", i-2)
+		}
+		nmix := c.N(4000, 60000)
+		for it := 0; it < nmix; it++ {
+			t := gen(3, true)
+			w := r.Intn(4)
+			nrows := 2 + r.Intn(3)
+			var rows []*D
+			kept := 0
+			for i := 0; i < nrows; i++ {
+				a := r.Intn(4)
+				rows = append(rows, h.Obj("v0", h.Bool(a&1 != 0), "v1", h.Bool(a&2 != 0), "id", h.FloatD(float64(i))))
+				if t.value(a | w<<2) {
+					kept += 1 << i
+				}
+			}
+			doc := h.Obj("arr", h.SliceAny(rows...), "w0", h.Bool(w&1 != 0), "w1", h.Bool(w&2 != 0))
+			body := t.text(varPath)
+			body = "[" + body[1:len(body)-1] + "]"
+			ec := c.AddEval("$.arr"+body+".id", doc, "filter-body-mixed-root-element", true, true)
+			wantKept := kept
+			n := nrows
+			ec.Check = func(o h.Outcome) string {
+				got := 0
+				switch {
+				case o.Class == "knf" && wantKept == 0:
+					return "" // no row kept: stepping `id` over nothing finds no key
+				case o.Class != "ok" || o.Val == nil || o.Val.Tag != "sl":
+					if wantKept == 0 {
+						return ""
+					}
+					return fmt.Sprintf("rows %b of %d must be kept; got %s", wantKept, n, o.Class)
+				}
+				for _, x := range o.Val.Xs {
+					if x.Coef == nil {
+						return "ids expected"
+					}
+					got |= 1 << floatOf2(x)
+				}
+				if got != wantKept {
+					return fmt.Sprintf("the group is true exactly for rows %b (bit i = row i); kept %b", wantKept, got)
+				}
+				return ""
+			}
+		}
+		c.RunEvalCases()
+	}
 	// one parsed operation reused over a document that is updated in place: every assignment in a random
 	// order, for trees placed at top level, nested, in a filter and as a function argument
 	{
